@@ -14,6 +14,23 @@ CHECKS = {
                 text='The complete reachable state graph of the real allocator on a reduced id space is explored, every operation in every state compared with a reference allocator; wire part drives real endpoints over a simulated link and enumerates all schedules up to 2 deviations.',
                 ref='4 C13'),
 }
+CHECKS.update({
+    'C01': dict(tech='deviation-bounded exhaustive schedule exploration (stateless) of a real client and server on a simulated link',
+                text='Every schedule with at most the stated number of deviations from the default is executed on the real endpoints (deliveries whole/batched/partial, application actions, same-iteration run mode) for every pair of interactions in the alphabet; a reference delivery model is checked on each execution.',
+                ref='4 C01'),
+    'C02': dict(tech='exhaustive enumeration (complete product of per-field boundary alphabets) + differential check of both codec backends',
+                text='Complete cartesian product of small per-field alphabets for each of the 14 frame classes, plus the whole 16-bit type/flags header space; round-trip, canonical bytes, incremental TransportTCP form and backend equality are checked on every value.',
+                ref='4 C02'),
+    'C08': dict(tech='deviation-bounded exhaustive schedule exploration with a reference protocol automaton (monitor) on every execution',
+                text='All executions (up to the deviation bound) of the C01/C09/C10 scenario sets on two real endpoints are judged frame by frame by a reference automaton of per-role RSocket legality.',
+                ref='4 C08'),
+    'C09': dict(tech='deviation-bounded exhaustive schedule exploration; the cancel action is an explicit event placed at every choice point',
+                text='cancel() is an application event, so the explorer places it at every point of every default execution (two default policies) and combines it with one further deviation in the bound-2 units.',
+                ref='4 C09'),
+    'C10': dict(tech='deviation-bounded exhaustive schedule exploration with an end-state oracle after fair flush',
+                text='The family one interaction x every ending is explored on two real endpoints; after a fair flush both endpoints must hold no stream and no partial frame.',
+                ref='4 C10'),
+})
 NOT_YET = {
 }
 ALL = ['C%02d' % i for i in range(1, 21)]
